@@ -238,8 +238,15 @@ func cmdCheck(argv []string) int {
 	}
 	sort.Strings(knownList)
 	symConfirmed := map[int]bool{}
+	symCache := map[string]bool{} // (harness, label, inputs) -> confirmed: equal witnesses are re-executed once
 	for i, v := range viol {
 		if strings.HasPrefix(v.Label, "sym:") {
+			ckey := v.Harness + "|" + v.Label + "|" + fmt.Sprint(v.Inputs)
+			if c, done := symCache[ckey]; done {
+				symConfirmed[i] = c
+				continue
+			}
+			symCache[ckey] = false
 			// engine-only observation: confirm by a concrete re-execution of the real SSA with the
 			// model's inputs (every nondeterministic order explored); it must fail again on some path
 			for _, res := range results {
@@ -248,12 +255,13 @@ func cmdCheck(argv []string) int {
 				}
 				rs := res.Spec
 				rs.Concrete = v.Inputs
-				rs.Workers, rs.Cosim, rs.XCheck, rs.MergeAt = 1, 0, false, nil
+				rs.Workers, rs.Cosim, rs.XCheck, rs.MergeAt = 8, 0, false, nil
 				cres, err := prog.Run(rs)
 				if err == nil {
 					for _, cv := range cres.Stats.Violations {
 						if cv.Label == v.Label {
 							symConfirmed[i] = true
+							symCache[ckey] = true
 						}
 					}
 				}
